@@ -7,8 +7,16 @@ cd /verif
 ids=$(python3 -c "import json; print(' '.join(c['property_id'] for c in json.load(open('MANIFEST.json'))['checks']))")
 for d in $D/ref_*.diff; do
   rm -rf $S; mkdir -p $S; git -C /repo archive HEAD | tar -x -C $S
-  if ! (cd $S && patch -p1 -s --dry-run < $d >/dev/null 2>&1); then echo "$(basename $d): does not apply"; continue; fi
-  (cd $S && patch -p1 -s < $d)
+  # the hunks for the GENERATED sourcer/parser.py are dropped and the file is regenerated from the edited tree, as the project does
+  # (so that a diff made before a later fix: commit regenerated parser.py still applies)
+  python3 - "$d" > /tmp/h_noparser.diff <<'PY'
+import re, sys
+parts = re.split(r'(?m)^(?=diff --git )', open(sys.argv[1]).read())
+sys.stdout.write(''.join(p for p in parts if not p.startswith('diff --git a/sourcer/parser.py')))
+PY
+  if ! (cd $S && patch -p1 -s --dry-run < /tmp/h_noparser.diff >/dev/null 2>&1); then echo "$(basename $d): does not apply"; continue; fi
+  (cd $S && patch -p1 -s < /tmp/h_noparser.diff)
+  python3 /verif/tools/regen_parser.py $S >/dev/null 2>&1
   suite=$(cd $S && /venv/bin/python -m pytest -q -p no:cacheprovider 2>&1 | tail -1)
   alarms=""
   for id in $ids; do
